@@ -590,3 +590,74 @@ def c06_dedup(ctx, repo):
 
 
 C06 = [c06_no_wrap, c06_overflow_loop, f23_split_conserve, c06_dedup]
+
+
+# ---------------------------------------------------------------------------
+# COV-fmt2: Coverage format 2 range records
+# ---------------------------------------------------------------------------
+def _linear(e):
+    """expression -> ({atom: coefficient}, constant) for sums/differences of atoms and integer literals; None if not linear"""
+    if isinstance(e, ast.Constant) and isinstance(e.value, int) and not isinstance(e.value, bool):
+        return {}, e.value
+    if isinstance(e, (ast.Name, ast.Attribute, ast.Subscript, ast.Call)):
+        return {norm(e): 1}, 0
+    if isinstance(e, ast.UnaryOp) and isinstance(e.op, (ast.USub, ast.UAdd)):
+        r = _linear(e.operand)
+        if r is None:
+            return None
+        s = -1 if isinstance(e.op, ast.USub) else 1
+        return {k: s * v for k, v in r[0].items()}, s * r[1]
+    if isinstance(e, ast.BinOp) and isinstance(e.op, (ast.Add, ast.Sub)):
+        a, b = _linear(e.left), _linear(e.right)
+        if a is None or b is None:
+            return None
+        s = -1 if isinstance(e.op, ast.Sub) else 1
+        d = dict(a[0])
+        for k, v in b[0].items():
+            d[k] = d.get(k, 0) + s * v
+        return {k: v for k, v in d.items() if v}, a[1] + s * b[1]
+    return None
+
+
+def coverage_ranges(ctx, repo):
+    ctx.rule("COV-fmt2", "Coverage format 2: StartCoverageIndex of each range is the number of glyphs in the ranges before it (the running index grows by end - start + 1, an inclusive length, after it was stored), records are sorted by their first glyph id, and the reader expands ranges inclusively", floor=4)
+    mod = repo.mod("ttLib/tables/otTables.py")
+    f = mod.func("Coverage.preWrite")
+    loop = next((n for n in ast.walk(f.node) if isinstance(n, ast.For) and "ranges" in norm(n.iter) and isinstance(n.target, ast.Tuple)), None)
+    if loop is None:
+        raise AnalysisError("Coverage.preWrite: range loop not found")
+    names = [norm(x) for x in ast.walk(loop.target) if isinstance(x, ast.Name)]
+    # running index
+    sci = [st for st in loop.body if isinstance(st, ast.Assign) and norm(st.targets[0]).endswith(".StartCoverageIndex")]
+    idx = norm(sci[0].value) if sci else None
+    upd = [st for st in loop.body if (isinstance(st, ast.Assign) and norm(st.targets[0]) == idx) or (isinstance(st, ast.AugAssign) and norm(st.target) == idx)]
+    ok = False
+    detail = "running index update not found"
+    if sci and upd:
+        u = upd[0]
+        lin = _linear(u.value)
+        if lin is not None:
+            coefs, const = lin
+            if isinstance(u, ast.AugAssign) and isinstance(u.op, ast.Add):
+                coefs = dict(coefs)
+                coefs[idx] = coefs.get(idx, 0) + 1
+            start, end = names[-2], names[-1]
+            ok = coefs == {idx: 1, end: 1, start: -1} and const == 1 and sci[0].lineno < u.lineno
+            detail = "" if ok else f"index grows by {coefs} + {const}; an inclusive range start..end holds end - start + 1 glyphs"
+    ctx.ob("COV-fmt2", f.where, f"StartCoverageIndex = {idx}; then {norm(upd[0]) if upd else None}", ok, detail)
+    # sort key
+    sid = [st for st in loop.body if isinstance(st, ast.Assign) and isinstance(st.targets[0], ast.Attribute) and norm(st.value) == names[-2]]
+    attr = sid[0].targets[0].attr if sid else None
+    sorts = [c for c in calls_in(f.node) if norm(c.func) == "ranges.sort"]
+    ok = bool(sorts) and attr is not None and all(any(k.arg == "key" and isinstance(k.value, ast.Lambda) and isinstance(k.value.body, ast.Attribute) and k.value.body.attr == attr for k in c.keywords) for c in sorts)
+    ctx.ob("COV-fmt2", f.where, f"range records sorted by .{attr} (the first glyph id)" if sorts else "range records sorted", ok, "" if ok else "records are not ordered by glyph id: a shaper's binary search misses covered glyphs")
+    ok = bool(sorts) and all(any(pol and norm(t) == "brokenOrder" for t, pol in guard_conditions(c)) for c in sorts)
+    ctx.ob("COV-fmt2", f.where, "the sort runs when the glyph list is not in glyph-id order", ok)
+    # reader: inclusive expansion
+    r = mod.func("Coverage.postRead")
+    ends = [st for st in ast.walk(r.node) if isinstance(st, ast.Assign) and norm(st.targets[0]) == "endID"]
+    ok = bool(ends) and all((_linear(st.value) or ({}, 0))[1] == 1 for st in ends)
+    ctx.ob("COV-fmt2", r.where, f"reader expands ranges inclusively: {[norm(st) for st in ends]}", ok)
+
+
+C06.append(coverage_ranges)
